@@ -3,6 +3,7 @@ package clientsim
 import (
 	"context"
 	"errors"
+	"fmt"
 	"net"
 	"os"
 	"reflect"
@@ -409,9 +410,30 @@ func (a *api6) Datagram(id, xid int, kind string) []byte {
 	m, _ := dhcpv6.NewMessage()
 	m.MessageType = dhcpv6.MessageTypeReply
 	m.TransactionID = xid6(xid)
-	// what a server's reply carries; the harness's own marker goes last
-	m.AddOption(dhcpv6.OptClientID(&dhcpv6.DUIDLL{HWType: 1, LinkLayerAddr: mac}))
+	// what a server's reply carries; the harness's own marker goes last. The client identifier is whatever the request bore -
+	// a device's own DUID of any kind, not necessarily one made from the interface's address: it is the transaction id that
+	// pairs a reply with its call
+	switch id % 6 {
+	case 1:
+		m.AddOption(dhcpv6.OptClientID(&dhcpv6.DUIDLL{HWType: 1, LinkLayerAddr: otherMac}))
+	case 2:
+		m.AddOption(dhcpv6.OptClientID(&dhcpv6.DUIDEN{EnterpriseNumber: 9, EnterpriseIdentifier: []byte("device-7")}))
+	case 3:
+		m.AddOption(dhcpv6.OptClientID(&dhcpv6.DUIDLLT{HWType: 1, Time: 0x2a2a2a2a, LinkLayerAddr: net.HardwareAddr{2, 9, 9, 9, 9, 9}}))
+	case 4:
+		// (no client identifier at all)
+	default:
+		m.AddOption(dhcpv6.OptClientID(&dhcpv6.DUIDLL{HWType: 1, LinkLayerAddr: mac}))
+	}
 	m.AddOption(dhcpv6.OptServerID(&dhcpv6.DUIDLL{HWType: 1, LinkLayerAddr: otherMac}))
+	if id%4 == 2 { // a configuration of some size: name servers, a search list of nine names (more than 255 octets in all)
+		m.AddOption(dhcpv6.OptDNS(net.ParseIP("2001:db8::53"), net.ParseIP("2001:db8::54")))
+		var names []string
+		for k := 0; k < 9; k++ {
+			names = append(names, fmt.Sprintf("department-%02d.campus-%02d.example.org", k, id%100))
+		}
+		m.AddOption(dhcpv6.OptDomainSearchList(&rfc1035label.Labels{Labels: names}))
+	}
 	if id%5 == 0 { // a datagram that fills the client's 1500-byte read buffer exactly
 		m.AddOption(&dhcpv6.OptionGeneric{OptionCode: 65002, OptionData: make([]byte, 1500-len(m.ToBytes())-4-6)})
 	}
